@@ -379,6 +379,7 @@ func init() {
 					}
 				}
 			}, func() struct{} { return struct{}{} }, c12Check)
+		c12TLCPart(c)
 		// long runs
 		explore.Product(c.R, "writes-around-overflows", explore.PartOpt{
 			Bound:  "1 write at every offset -3..+4 around each of the first overflows, plus a second write 0-3 cycles later; every tick compared",
